@@ -366,8 +366,8 @@ class C19Check(Check):
                 continue
             if speed_up and is_pwc and (not precomputed):
                 continue  # missing kernel entries: documented refusal, not judged here
-            if speed_up and is_pwc and model.cur[0][0] == "prefit" and name != "predict_proba":
-                continue
+            if speed_up and is_pwc and model.cur[0][0] == "prefit":
+                ctx.probe("speed_up_with_prefitted_clf")
             try:
                 val = self._apply(wrp, op)
             except Exception as e:
